@@ -1,6 +1,7 @@
 import CoreBGP.Model.Session
 import CoreBGP.Spec.Session
 import CoreBGP.Lemmas.Reader
+import CoreBGP.Lemmas.Session
 /-!
 # C03 — inbound UPDATEs reach the handler exactly once, in order, byte-exact
 
@@ -68,7 +69,17 @@ theorem stream_delivery (cfg : SessCfg) (ms : List (UInt8 × Bytes))
     handlerCalls (runSession cfg .established
         (((readAll (ms.map fun m => Spec.frame m.1 m.2).flatten).1).map fun m => (.msg m, none)))
       = ms.filterMap fun m => if m.1 = 2 then some m.2 else none := by
-  sorry
+  rw [Lemmas.readAll_kaOrUpdate ms hms]
+  have hk : ∀ m ∈ ms.map Lemmas.kaOrUpdate, isKaOrUpdate m = true := by
+    intro m hm
+    obtain ⟨x, _, rfl⟩ := List.mem_map.1 hm
+    unfold Lemmas.kaOrUpdate
+    split <;> rfl
+  rw [delivery cfg _ hk, List.filterMap_map]
+  congr 1
+  funext m
+  simp only [Function.comp, Lemmas.kaOrUpdate]
+  split <;> rfl
 
 example : handlerCalls (runSession ⟨1, 1, 2, 90⟩ .established
     [(.msg (.update [1]), none), (.msg .keepalive, none), (.msg (.update []), none)]) = [[1], []] := by decide
